@@ -7,7 +7,7 @@
 (***************************************************************************)
 EXTENDS DataX, TLC
 
-CONSTANT MaxLen, BlobLens
+CONSTANT MaxLen, BlobLens, KSet
 
 \* W8 of small magnitudes and of +-2^k boundaries
 P2(k) == \* 2^k as W8, k in 0..62
@@ -25,7 +25,7 @@ Dec1(v) == Neg(LET n == Neg(v) IN
                                   ELSE IF s[i] = 255 THEN Inc([s EXCEPT ![i] = 0], i - 1)
                                   ELSE [s EXCEPT ![i] = s[i] + 1]
                  IN Inc(n, 8))
-Ks == {7, 15, 23, 31, 39, 63}
+Ks == KSet      \* the class boundaries explored: a subset of {7, 15, 23, 31, 39, 63}
 Boundary == {Zeros(8), P2(0), Neg(P2(0))}
               \cup {P2(k) : k \in Ks \ {63}} \cup {Dec1(P2(k)) : k \in Ks \ {63}}     \* 2^k, 2^k - 1
               \cup {Neg(P2(k)) : k \in Ks \ {63}} \cup {Dec1(Neg(P2(k))) : k \in Ks \ {63}} \* -2^k, -2^k - 1
